@@ -393,7 +393,12 @@ def run(ctx):
                 members = None
                 if r1 is not None and r2 is not None:
                     members = gen.pick(rng, ((r1,), (r1, r1), (r1, r2), (r1, A.num('0'))))
-                    if rng.random() < 0.35:
+                    if rng.random() < 0.2:
+                        big = ('range', A.num(gen.pick(rng, ('0', '1'))), A.num(gen.pick(rng, ('999', '1000', '1500', '20000'))), False, False)
+                        case.e = ('bin', gen.pick(rng, ('>', '<=')), ('call', gen.pick(rng, ('sum', 'prod', 'len')), (big,)), r1)
+                        t = gen.BOOL
+                        members = None
+                    elif rng.random() < 0.35:
                         # membership of a reference in a range that is unbounded on one side
                         inf, k = ('const', 'INF'), gen.pick(rng, (A.num('0'), A.num('3'), r2))
                         rg = gen.pick(rng, (('range', k, inf, False, False), ('range', k, inf, True, False),
